@@ -13,7 +13,7 @@ TRUSTED = common.TRUSTED_COMMON
 ASSUMPTIONS = common.ASSUME_COMMON
 RULE = ("every root template (single lock, poisonable, 4 collection kinds x 4 container kinds, sizes 0..4, random "
         "nestings to depth 2) x {try_lock, try_read, and for a third of the cases scoped_try_lock / scoped_try_read} x every assignment of {free, read-held, write-held by another "
-        "thread} to the leaves; non-trivial = at least one leaf held (a refusal or a shared grant next to readers); "
+        "thread} to the leaves; plus every template that is or contains a Poisonable, first poisoned by a panicking exclusive scoped call and then tried in every flavour and mode (the poison flag must not change whether the try acquires); non-trivial = at least one leaf held (a refusal or a shared grant next to readers); "
         "distinct = distinct (shape, mode, assignment)")
 EXHAUSTIVE = {"quick": False, "thorough": False}
 
@@ -92,10 +92,33 @@ def gen(tier, rng):
                     scens.append(b.scen(hist=[(0, ("get",)), (0, ("acq", root, m, "scopedtry", rng.random() < 0.5, body))],
                                         pre=common.pre_from_assignment(b, locks, a),
                                         meta={"desc": b.desc[root], "mode": m, "assign": "".join(a), "flavour": "scopedtry"}))
+    # the same on a poisoned wrapper: every root that is or contains a Poisonable is first poisoned (an exclusive scoped call
+    # with a lent key whose closure panics; all leaves free), then tried in every flavour and mode
+    for mk in templates(rng, tier):
+        b, root = mk()
+        locks = b.locks_of[root]
+        if not locks or len(locks) > 5 or "P(" not in b.desc[root]:
+            continue
+        modes = ["ex"] + (["sh"] if b.sharable[root] else [])
+        for m in modes:
+            for fl in ("try", "scopedtry"):
+                b.sid = f"c13_{k}"
+                k += 1
+                hist = [(0, ("get",)), (0, ("acq", root, "ex", "scoped", True, [("panic",)]))]
+                if fl == "try":
+                    hist += [(0, ("acq", root, m, "try")), (0, ("gdrop",))]
+                else:
+                    body = [("w", 0)] if m == "ex" and rng.random() < 0.5 else [("r", 0)]
+                    hist += [(0, ("acq", root, m, "scopedtry", rng.random() < 0.5, body))]
+                scens.append(b.scen(hist=hist, pre=[],
+                                    meta={"desc": b.desc[root], "mode": m, "assign": "f" * len(locks),
+                                          "flavour": fl + "-poisoned", "poisoned": True}))
     return scens
 
 
 def coq_expr(s, r):
+    if s.meta.get("poisoned"):
+        return f"check_C13p ({s.coq(*r['adr'])}) {common.obs_list(r)}"
     return f"check_C13 ({s.coq(*r['adr'])}) {common.obs_list(r)}"
 
 
@@ -107,7 +130,7 @@ def classify(s, r):
 
 
 def nontrivial(s, r):
-    return any(c != "f" for c in s.meta["assign"])
+    return s.meta.get("poisoned", False) or any(c != "f" for c in s.meta["assign"])
 
 
 def signature(s):
